@@ -478,10 +478,10 @@ func (w *c18World) packet(i int) {
 			}
 			if pass {
 				if fl.churn == 0 {
-					w.violation("an expired flow is honoured: idle longer than timeout + 2 wheel ticks, no other flow was inserted since (Expires is not compared with the clock)", detail)
+					w.violation("an expired flow is honoured: idle longer than timeout + 2 wheel ticks, no other flow inserted since", detail)
 				} else {
 					detail["other_flows_inserted_since"] = fl.churn
-					w.violation("an expired flow is honoured: idle longer than timeout + 2 wheel ticks, despite later inserts of other flows", detail)
+					w.violation("an expired flow is honoured: idle longer than timeout + 2 wheel ticks, although other flows were inserted since", detail)
 				}
 			} else if fl.churn > 0 {
 				st.expiredDropChurn++
@@ -606,10 +606,10 @@ func TestVerifC18(t *testing.T) {
 	// "wide": a TCP timeout far above UDP timeout + granted band, so that a mixed-up protocol timeout is outside the band
 	cfgs := []c18Cfg{
 		{"base", 6, 3, 4, 0},
-		{"wide+cache", 12, 3, 5, 2},
+		{"wide+cache", 15, 3, 5, 2},
 	}
 	if c.Thorough() {
-		cfgs = append(cfgs, c18Cfg{"wide", 12, 3, 5, 0}, c18Cfg{"base+cache", 6, 3, 4, 2}, c18Cfg{"odd", 5, 2, 7, 0}, c18Cfg{"equal+cache", 4, 4, 4, 1})
+		cfgs = append(cfgs, c18Cfg{"wide", 15, 3, 5, 0}, c18Cfg{"base+cache", 6, 3, 4, 2}, c18Cfg{"odd", 5, 2, 7, 0}, c18Cfg{"equal+cache", 4, 4, 4, 1})
 	}
 	alpha := c18Alphabet(c.Thorough())
 	maxDepth := mc.Pick(c, 5, 7)
@@ -696,8 +696,9 @@ func TestVerifC18(t *testing.T) {
 	}
 	c.Set("distinct_outcomes", kinds)
 
-	// vacuity guards (only for a search that was not cut short by the soft budget)
-	if complete {
+	// vacuity guards: only for a search that was not cut short by the soft budget and that reported nothing (a run that
+	// ends in a VIOLATION is a verdict already; an implementation that misbehaves may well skew the outcome counts)
+	if complete && c.Violations() == 0 {
 		c.Require(st.rulePass > 0 && st.trackedPass > 0 && st.neverDrop > 0, "outcomes missing: by-rule=%d by-flow=%d never-tracked-refused=%d", st.rulePass, st.trackedPass, st.neverDrop)
 		for _, cl := range []string{"tcp", "udp", "default"} {
 			c.Require(st.mustPass[cl] > 0 && st.mustDrop[cl] > 0, "protocol class %s: judged must-pass=%d must-drop=%d", cl, st.mustPass[cl], st.mustDrop[cl])
